@@ -179,8 +179,62 @@ def _finish(ctx, d, counters, key):
     return result_from_diff(d, nt, key, counters, sample)
 
 
+def case_reload(ctx, rng):
+    """meta-calls before and after the called predicate is redefined by a later load / registration / assert:
+    call(G) must have exactly G's answers at every point of the history"""
+    from .. import history as H
+    X, Lv = V('X'), V('L')
+    k = [0]
+
+    def facts(name, n):
+        k[0] += 1
+        return [(C(name, A('v%d_%d' % (k[0], i))), ('true',)) for i in range(n)]
+    meta = [
+        (C('viacall', X), ('call', C('call', C('p', X)))),
+        (C('viacall2', X), ('and', ('call', C('=', V('G'), A('p'))), ('call', C('call', V('G'), X)))),
+        (C('viaonce', X), ('call', C('once', C('p', X)))),
+        (C('viafindall', Lv), ('call', C('findall', X, C('p', X), Lv))),
+        (C('direct', X), ('call', C('p', X))),
+    ]
+    probes = [('viacall', 1), ('viacall2', 1), ('viaonce', 1), ('viafindall', 1), ('direct', 1)]
+    hist = [('load', meta + facts('p', rng.choice([1, 2, 3])), True), ('dump', probes)]
+    for _ in range(rng.choice([1, 2, 3])):
+        r = rng.random()
+        if r < 0.5:
+            hist.append(('load', facts('p', rng.choice([1, 2])), rng.random() < 0.5))
+        elif r < 0.7:
+            k[0] += 1
+            hist.append(('register', 'p', 1, [(A('py%d' % k[0]),)], rng.choice(['explicit', 'inferred'])))
+        elif r < 0.85:
+            k[0] += 1
+            hist.append(('assert_fact', C('p', A('f%d' % k[0])), rng.random() < 0.5))
+        else:
+            hist.append(('run', 'call', [C('p', V('A%d' % k[0]))], None))
+        hist.append(('dump', probes))
+        if rng.random() < 0.4:
+            hist.append(('run', rng.choice(['call', 'once']), [C('p', V('B%d' % k[0]))], None))
+    d = H.compare_history(ctx['real'], hist, budgetA=20000)
+    c = {'reload_histories': 1}
+    r = {'c': c, 'nt': False, 'key': H.normalise(hist)}
+    if d['status'] == 'discard':
+        r['discard'] = d['reason']
+        if d['reason'] == 'oracle_disagreement':
+            c['oracle_disagreement'] = 1
+        return r
+    if d['status'] == 'violation':
+        r['v'] = {'kind': 'meta_call_differs_after_redefinition:' + d['kind'], 'detail': d['detail'], 'witness': {'history': H.normalise(hist)}}
+        r['nt'] = True
+        return r
+    for kk, n in d['refA'].bcalls.items():
+        c['b_' + kk] = n
+    r['nt'] = True
+    return r
+
+
 def run_case(ctx, seed, idx, tier):
     rng = random.Random((seed * 1000003 + idx) * 7 + 9)
+    if idx % 10 == 9:
+        return case_reload(ctx, rng)
     clauses, goals, vars_, c = gen_case(rng)
     c = dict(c)
     r = rng.random()
